@@ -210,7 +210,7 @@ type Comp struct {
 var staticNames = []string{"Empty", "Text", "TextExpr", "MultiLineExpr", "EscText", "Attrs", "ClassAttr", "StyleAttr", "StyleForms", "Href",
 	"OnClick", "ScriptCall", "ScriptElem", "RawElems", "Nav", "Layout", "Page", "IfElse", "ForLoop", "Switch", "Wrap", "UseWrap",
 	"NestedFail", "ManyTiny", "Flushy", "Joiny", "Oncey", "Rawy", "Funcy", "GoHTML", "ToGoHTML", "JSONy", "SubBox", "UseMethod",
-	"Deep", "OnceZero", "LegacyBody", "LegacyNested", "LegacyLast", "CancelMiddle", "ManualSeq", "BareManual", "SideSmall", "SideLarge", "SideTwice", "LongStatic", "LongMixed", "LongBoundary", "DevA", "DevB",
+	"Deep", "ScriptStrings", "ScriptStringLast", "OnceZero", "LegacyBody", "LegacyNested", "LegacyLast", "CancelMiddle", "ManualSeq", "BareManual", "SideSmall", "SideLarge", "SideTwice", "LongStatic", "LongMixed", "LongBoundary", "DevA", "DevB",
 	"BareJoin", "BareOnce", "BareFlush", "SlotRoot", "NonceScripts", "NonceOnClick", "BareRaw", "BareScript"}
 
 var variedNames = []string{"LegacyNested", "EscText", "Attrs", "ClassAttr", "Href", "Nav", "Page", "IfElse", "ForLoop", "Switch", "OnClick", "BareJoin"}
